@@ -68,6 +68,19 @@ def mergeTo : Tags → Tags → Tags
     | some _ => mergeTo rest dest
     | none => mergeTo rest (dest ++ [(k, v)])
 
+/-- does some tag name have two different definitions in `a` and `b` -/
+def hasConflict (a b : Tags) : Bool :=
+  a.any fun p => match lookupTag a p.1, lookupTag b p.1 with
+    | some v, some w => v != w
+    | _, _ => false
+
+/-- which of the two behaviours of the code under test is modelled (probed on the code by the harness):
+`tagCheck` = `_check` also refuses to replace the branch by a reference when the two tag dictionaries conflict
+(the unchanged code does not: the local definition is dropped silently, see `tag_conflict_witness`) -/
+structure Variant where
+  tagCheck : Bool
+  deriving DecidableEq, Repr
+
 structure Loc where
   tree : Bool
   /-- the working tree has pending changes (meaningful when `tree`) -/
@@ -201,11 +214,13 @@ def stDropRepo (f : Flags) (above : Bool) (l : Loc) : Loc :=
   if f.destroyRepository then { l with repo := if above then .shared else .none } else l
 
 /-- `apply`: the state reached, and the error that stopped it (if any) -/
-def applyFlags (l : Loc) (f : Flags) (force : Bool) : Loc × Option Err :=
+def applyFlags (v : Variant) (l : Loc) (f : Flags) (force : Bool) : Loc × Option Err :=
   -- _check
   if !force && f.destroyTree && l.dirty then (l, some .uncommittedChanges)
   else if !force && f.createReference && l.branch != .reference && !l.bindKnown then (l, some .noBindLocation)
   else if !force && f.createReference && l.branch != .reference && !l.synced then (l, some .unsyncedBranches)
+  else if !force && v.tagCheck && f.createReference && l.branch != .reference && hasConflict l.tags l.refTags then
+    (l, some .unsyncedBranches)
   -- reference_branch = Branch.open(_select_bind_location())
   else if f.createReference && !l.bindKnown then (stRepo f l, some .noBindLocation)
   -- destroy_repository, part 1: where do the revisions go
@@ -217,15 +232,15 @@ def applyFlags (l : Loc) (f : Flags) (force : Bool) : Loc × Option Err :=
     (stDropRepo f l.sharedAbove (stBind f (stUnbind f (stTree f (stBranch f (stRepo f l))))), none)
 
 /-- factory + apply -/
-def reconfigure (t : Target) (force : Bool) (l : Loc) : Loc × Option Err :=
+def reconfigure (v : Variant) (t : Target) (force : Bool) (l : Loc) : Loc × Option Err :=
   match factory l t with
   | .error e => (l, some e)
-  | .ok f => if f.any then applyFlags l f force else (l, some .already)
+  | .ok f => if f.any then applyFlags v l f force else (l, some .already)
 
 /-- a sequence of reconfigurations, each started whatever the outcome of the previous one -/
-def runAll (force : Bool) : List Target → Loc → Loc
+def runAll (v : Variant) (force : Bool) : List Target → Loc → Loc
   | [], l => l
-  | t :: ts, l => runAll force ts (reconfigure t force l).1
+  | t :: ts, l => runAll v force ts (reconfigure v t force l).1
 
 /-- the layout a `to_*` factory stands for (= the factory plans no change) -/
 def layoutIs : Target → Loc → Bool
